@@ -164,6 +164,45 @@ class ScriptedLocalAdapter(ScriptedAdapter):
 _saved_local = ScriptAdapterFactory.factories.get("local")
 
 
+def make_counting(real_cls, calls):
+    """the real adapter, with its scheduler-facing calls recorded"""
+    class Counting(real_cls):
+        def submit(self, step, path, cwd, job_map=None, env=None):
+            calls.append(("submit", step.real_name))
+            return super(Counting, self).submit(step, path, cwd, job_map, env)
+
+        def check_jobs(self, joblist):
+            calls.append(("check_jobs", tuple(joblist)))
+            return super(Counting, self).check_jobs(joblist)
+
+        def cancel_jobs(self, joblist):
+            calls.append(("cancel_jobs", tuple(joblist)))
+            return super(Counting, self).cancel_jobs(joblist)
+    Counting.__name__ = "Counting" + real_cls.__name__
+    return Counting
+
+
+def make_scripted(real_cls, calls):
+    """the real adapter's script generation with an all-success scripted scheduler"""
+    state = {"n": 0}
+
+    class AllSuccess(real_cls):
+        def submit(self, step, path, cwd, job_map=None, env=None):
+            state["n"] += 1
+            calls.append(("submit", step.real_name))
+            return SubmissionRecord(SubmissionCode.OK, 0, str(state["n"]))
+
+        def check_jobs(self, joblist):
+            calls.append(("check_jobs", tuple(joblist)))
+            return JobStatusCode.OK, {j: State.FINISHED for j in joblist}
+
+        def cancel_jobs(self, joblist):
+            calls.append(("cancel_jobs", tuple(joblist)))
+            return CancellationRecord(CancelCode.OK, 0)
+    AllSuccess.__name__ = "AllSuccess" + real_cls.__name__
+    return AllSuccess
+
+
 def install():
     ScriptAdapterFactory.factories["scripted"] = ScriptedAdapter
     ScriptAdapterFactory.factories["local"] = ScriptedLocalAdapter
